@@ -371,7 +371,11 @@ let run_case (x : sx) : Stdlib.String.t =
                     | [A "1"], _, RPlain s0 :: rest -> chain_path0 s0 rest
                     | _, [A a; A b], _ -> padded_path (nat_of_int (int_of_string a)) (nat_of_int (int_of_string b)) ks
                     | _ -> chain_path ks in
-                  Buffer.add_string b (if text = path then "\tKP=1" else "\tKP=0"));
+                  (* the premises of the theorems about such texts: every step well-formed (fstep_ok, and fstep_okp with the case's oracles),
+                     every function name spellable *)
+                  let keyf_names = List.map (function L l -> cp l | _ -> failwith "bad function name") (getf "keyf") in
+                  let premises = List.for_all fstep_ok fs && List.for_all (fstep_okp parse_float regex_ok) fs && List.for_all fname_ok keyf_names in
+                  Buffer.add_string b (if text <> path then "\tKP=0" else if premises then "\tKP=1" else "\tKP=P"));
              if not (wf_node t) then Buffer.add_string b "\tWF=0";
              if not (acc_clean t) then Buffer.add_string b "\tWF=0";
              if not (ctext_ok t) then Buffer.add_string b "\tWF=0";
